@@ -243,7 +243,7 @@ def onEvent (s : St) (b : Book) (o : Obs) (b' : Book) : St × List Viol :=
   | .call _ cid c =>
     let s := if isResumer c then { s with open_ := s.open_.map (fun (i, (_, js, l)) => (i, (true, js, l))) } else s
     let s := if isLifecycle c then { s with settled := none, open_ := s.open_.map (fun (i, (r, js, _)) => (i, (r, js, true))) } else s
-    if isBarrier c then ({ s with open_ := (cid, (false, [], true)) :: s.open_ }, [])
+    if isBarrier c then ({ s with open_ := (cid, (b.anyOpen isResumer, [], true)) :: s.open_ }, [])
     else if c == .wuf then ({ s with open_ := (cid, (false, if s.settled == some .running then acceptedNow b else [], s.settled != some .running)) :: s.open_ }, [])
     else (s, [])
   | .ret _ cid c r =>
